@@ -1412,7 +1412,8 @@ static int cfg_parse_internal(cfg_t *cfg, int level, int force_state, cfg_opt_t 
 				goto error;
 			}
 
-			if (opt && is_set(CFGF_DEPRECATED, opt->flags))
+			/* Parsing the default value is not a use of the option */
+			if (opt && opt != force_opt && is_set(CFGF_DEPRECATED, opt->flags))
 				cfg_handle_deprecated(cfg, opt);
 
 			if (comment)
